@@ -56,10 +56,12 @@ def member_extents(F, S):
     out = []
     n = 0
 
+    from ..through import find_calls
+
     def find_slice(fn, nargs):
-        c = [nd for nd in fn.nodes if nd["k"] == "CXXMemberCallExpr" and nd.get("fname") == "Slice" and len(nd.get("args", [])) == nargs]
+        c = find_calls(F, fn, lambda nd: nd["k"] == "CXXMemberCallExpr" and nd.get("fname") == "Slice" and len(nd.get("args", [])) == nargs)
         if len(c) != 1:
-            raise AnalysisBroken("%s: expected exactly one Slice/%d call, found %d" % (fn.qn, nargs, len(c)))
+            raise AnalysisBroken("%s: expected exactly one Slice/%d call (directly or in a helper), found %d" % (fn.qn, nargs, len(c)))
         return c[0]
 
     idx_t = lambda fn: ("var", fn.params[0]["n"], fn.params[0]["d"])
@@ -68,37 +70,37 @@ def member_extents(F, S):
         fn = F.fn(CLM + "::" + name, nparams=1 if name == "OpenStream" else 2, pred=lambda f: "unsigned long" in f.key.split("(")[1])
         sl = find_slice(fn, 2)
         defs = alias_defs(fn)
-        a = [resolve(fn.term(x), defs) for x in sl["args"]]
+        a = [resolve(x, defs) for x in sl.args()]
         ent = ("idx", ("mem", ("this",), "indexEntries"), idx_t(fn))
         n += 1
         inst = "%s::%s#extent" % (CLM, name)
         req = "the slice is (indexEntries[index].dataOffset, indexEntries[index].dataLength) of the archive's reader"
-        if a == [("mem", ent, "dataOffset"), ("mem", ent, "dataLength")] and fn.term(sl["obj"]) == ("mem", ("this",), "clmFileReader"):
-            out.append(ok("R-COPYEXT", inst, fn.loc(sl["id"]), fn.qn, req, "Slice(%s, %s)" % (fmt_term(a[0]), fmt_term(a[1]))))
+        if a == [("mem", ent, "dataOffset"), ("mem", ent, "dataLength")] and sl.obj() == ("mem", ("this",), "clmFileReader"):
+            out.append(ok("R-COPYEXT", inst, sl.loc(), fn.qn, req, "Slice(%s, %s)" % (fmt_term(a[0]), fmt_term(a[1]))))
         else:
-            out.append(bad("R-COPYEXT", inst, fn.loc(sl["id"]), fn.qn, req, "Slice(%s, %s) on %s" % (fmt_term(a[0]), fmt_term(a[1]), fmt_term(fn.term(sl["obj"])))))
+            out.append(bad("R-COPYEXT", inst, sl.loc(), fn.qn, req, "Slice(%s, %s) on %s" % (fmt_term(a[0]), fmt_term(a[1]), fmt_term(sl.obj()))))
     # VOL: header = GetSectionHeader(index) (seeks to the block and reads its header); stream = Slice(Position(), header.length)
     fn = F.fn(VOL + "::OpenStream", nparams=1, pred=lambda f: "unsigned long" in f.key.split("(")[1])
     sl = find_slice(fn, 2)
     defs = alias_defs(fn)
-    a = [resolve(fn.term(x), defs) for x in sl["args"]]
+    a = [resolve(x, defs) for x in sl.args()]
     rd = ("mem", ("this",), "archiveFileReader")
     hdr = ("call", VOL + "::GetSectionHeader", ("this",), (idx_t(fn),))
     n += 1
     req = "the slice starts at the reader position left by GetSectionHeader(index) and has that header's length"
-    good = fn.term(sl["obj"]) == rd and a[0] == ("call", NS + "FileReader::Position", rd, ()) and a[1] == ("mem", hdr, "length")
+    good = sl.obj() == rd and a[0] == ("call", NS + "FileReader::Position", rd, ()) and a[1] == ("mem", hdr, "length")
     # no reader movement between GetSectionHeader and the slice
     moved = [nd for nd in fn.nodes if nd["k"] == "CXXMemberCallExpr" and "obj" in nd and fn.term(nd["obj"]) == rd
              and nd.get("fname") in ("Seek", "SeekForward", "SeekBackward", "Read", "ReadPartial")]
     if good and not moved:
-        out.append(ok("R-COPYEXT", VOL + "::OpenStream#extent", fn.loc(sl["id"]), fn.qn, req, "Slice(Position(), GetSectionHeader(index).length)"))
+        out.append(ok("R-COPYEXT", VOL + "::OpenStream#extent", sl.loc(), fn.qn, req, "Slice(Position(), GetSectionHeader(index).length)"))
     else:
-        out.append(bad("R-COPYEXT", VOL + "::OpenStream#extent", fn.loc(sl["id"]), fn.qn, req,
+        out.append(bad("R-COPYEXT", VOL + "::OpenStream#extent", sl.loc(), fn.qn, req,
                        "Slice(%s, %s)%s" % (fmt_term(a[0]), fmt_term(a[1]), "; reader is moved in between" if moved else "")))
     fn = F.fn(VOL + "::ExtractFileUncompressed", nparams=2)
     sl = find_slice(fn, 1)
     defs = alias_defs(fn)
-    a = [resolve(fn.term(x), defs) for x in sl["args"]]
+    a = [resolve(x, defs) for x in sl.args()]
     hdr = ("call", VOL + "::GetSectionHeader", ("this",), (idx_t(fn),))
     n += 1
     req = "the extracted slice starts at the position left by GetSectionHeader(index) and has that header's length"
@@ -107,11 +109,11 @@ def member_extents(F, S):
     for w in wr:
         t = resolve(fn.term(w["args"][0]), {})
         if t[0] == "var":
-            src_ok = src_ok or defs.get(t) == fn.term(sl["id"])
-    if fn.term(sl["obj"]) == rd and a[0] == ("mem", hdr, "length") and src_ok:
-        out.append(ok("R-COPYEXT", VOL + "::ExtractFileUncompressed#extent", fn.loc(sl["id"]), fn.qn, req, "Slice(GetSectionHeader(index).length) is what is copied"))
+            src_ok = src_ok or defs.get(t) == fn.term(sl.outer_id())
+    if sl.obj() == rd and a[0] == ("mem", hdr, "length") and src_ok:
+        out.append(ok("R-COPYEXT", VOL + "::ExtractFileUncompressed#extent", sl.loc(), fn.qn, req, "Slice(GetSectionHeader(index).length) is what is copied"))
     else:
-        out.append(bad("R-COPYEXT", VOL + "::ExtractFileUncompressed#extent", fn.loc(sl["id"]), fn.qn, req, "Slice(%s); copied source matches: %s" % (fmt_term(a[0]), src_ok)))
+        out.append(bad("R-COPYEXT", VOL + "::ExtractFileUncompressed#extent", sl.loc(), fn.qn, req, "Slice(%s); copied source matches: %s" % (fmt_term(a[0]), src_ok)))
     # GetSectionHeader: absolute seek to the recorded block offset precedes the header read, tag is compared
     fn = F.fn(VOL + "::GetSectionHeader", nparams=1)
     eng = Engine(F, S)
